@@ -17,6 +17,9 @@ import (
 // and deepen-since/deepen-not specifications.
 var ErrDeepenMutuallyExclusive = errors.New("deepen and deepen-since (or deepen-not) cannot be used together")
 
+// filterPrefix starts the filter-request line of an upload-request.
+var filterPrefix = []byte("filter ")
+
 // Decode reads the next upload-request from its input and
 // stores it in the UploadRequest.
 func (req *UploadRequest) Decode(r io.Reader) error {
@@ -167,7 +170,7 @@ func (req *UploadRequest) Decode(r io.Reader) error {
 		}
 
 		// After deepen <n>, only flush-pkt is valid
-		if req.Depth.Deepen > 0 {
+		if req.Depth.Deepen > 0 && !bytes.HasPrefix(line, filterPrefix) {
 			if bytes.HasPrefix(line, deepenSince) || bytes.HasPrefix(line, deepenReference) {
 				return ErrDeepenMutuallyExclusive
 			}
@@ -180,6 +183,19 @@ func (req *UploadRequest) Decode(r io.Reader) error {
 	}
 
 	// Unexpected payload after shallows or wants
+	// Encode writes the optional filter-request last, before the flush-pkt.
+	if bytes.HasPrefix(line, filterPrefix) {
+		req.Filter = Filter(bytes.TrimPrefix(line, filterPrefix))
+
+		ok, err := nextLine()
+		if err != nil {
+			return err
+		}
+		if !ok || len(line) == 0 {
+			return nil
+		}
+	}
+
 	if len(line) != 0 {
 		return decodeError("unexpected payload while expecting a flush-pkt: %q", line)
 	}
